@@ -214,3 +214,12 @@ Theorem C03_monitor_accepts_model_routes : forall cfg r m allowed d client,
         (map name_value (read_cookies (h_get k_cookie out))) = true.
 Proof. exact monitor_accepts_model_routes_due. Qed.
 Print Assumptions C03_monitor_accepts_model_routes.
+
+(* Configuration: an upstream whose own options say `pass_access_token: false` never receives the
+   session's access token (only a value the operator injects), on every route, whatever the
+   deployment-wide default and whatever the client sent. *)
+Theorem C03_explicit_optout_respected : forall cfg deployment_default r s client v,
+  pass_access_token cfg = resolve_pass_access_token deployment_default (Some false) ->
+  In v (h_get k_xfat (upstream_r true cfg r (Authenticated s) client)) -> last_injected k_xfat (inject cfg) = Some v.
+Proof. exact optout_respected. Qed.
+Print Assumptions C03_explicit_optout_respected.
